@@ -253,37 +253,78 @@ theorem histGet_ok (h : Hist) (hu : h.uniform) : (histGet h).Safe := by
   simp
   exact (hu _ (List.getElem_mem hi)).symm
 
+theorem histAdd_bounded' (h : Hist) (k : Nat) (hb : h.bounded) : (histAdd h k).val.bounded := by
+  have hl := histAdd_len h k
+  have hw : (histAdd h k).val.window = h.window := by unfold histAdd; split <;> simp
+  obtain ⟨h1, h2, h3⟩ := hb
+  simp only [Hist.bounded]
+  rw [hl, hw]
+  split <;> omega
+
+theorem histAddMany_ok (S : Nat) (k : Nat) : ∀ h : Hist, h.uniform → h.stateSize = S → h.bounded →
+    (histAddMany S k h).Safe ∧ (histAddMany S k h).val.uniform ∧ (histAddMany S k h).val.stateSize = S ∧ (histAddMany S k h).val.bounded := by
+  induction k with
+  | zero => intro h hu hs hb; simp [histAddMany, hu, hs, hb]
+  | succ k ih =>
+    intro h hu hs hb
+    have ha := histAdd_ok h S hu hs.symm
+    have hb' := histAdd_bounded' h S hb
+    have := ih (histAdd h S).val ha.2.1 (by rw [ha.2.2.1, hs]) hb'
+    simp only [histAddMany, safe_bind, val_bind, ha.1, true_and]
+    exact this
+
+/-- the other buffer of a move assignment is itself a well-formed buffer of its own state size -/
+theorem otherHist_ok (S2 k w : Nat) :
+    (otherHist S2 k w).Safe ∧ (otherHist S2 k w).val.uniform ∧ (otherHist S2 k w).val.stateSize = S2 ∧ (otherHist S2 k w).val.bounded := by
+  have hu0 : (Hist.new S2).uniform := by simp [Hist.uniform, Hist.new]
+  have hb0 : (Hist.new S2).bounded := by simp [Hist.bounded, Hist.new]
+  unfold otherHist
+  simp only [safe_bind, val_bind]
+  split
+  · have hs := histSetSize_ok (Hist.new S2) w hu0
+    have hb := histSetSize_bounded (Hist.new S2) w hb0
+    have := histAddMany_ok S2 k _ hs.2.1 (by rw [hs.2.2]; rfl) hb
+    exact ⟨⟨hs.1, this.1⟩, this.2⟩
+  · have := histAddMany_ok S2 k (Hist.new S2) hu0 rfl hb0
+    exact ⟨⟨by simp, this.1⟩, this.2⟩
+
 theorem histStep_ok (h : Hist) (op : HOp) (hu : h.uniform) (hop : op.ok h.stateSize) :
-    (histStep h op).Safe ∧ (histStep h op).val.1.uniform ∧ (histStep h op).val.1.stateSize = h.stateSize := by
+    (histStep h op).Safe ∧ (histStep h op).val.1.uniform ∧ (histStep h op).val.1.stateSize = op.nextSize h.stateSize := by
   cases op with
   | add k =>
     have := histAdd_ok h k hu hop
-    simp [histStep, this]
+    simp [histStep, this, HOp.nextSize]
   | setSize w =>
     have := histSetSize_ok h w hu
-    simp [histStep, this]
+    simp [histStep, this, HOp.nextSize]
   | dec =>
     have := histSetSize_ok h (if h.window = 0 then 4294967295 else h.window - 1) hu
-    simp [histStep, this]
+    simp [histStep, this, HOp.nextSize]
   | inc =>
     have := histSetSize_ok h (h.window + 1) hu
-    simp [histStep, this]
-  | clear => simp [histStep, Hist.uniform]
-  | get => simp [histStep, histGet_ok h hu, hu]
-  | moveKeepNew => simp [histStep, hu]
+    simp [histStep, this, HOp.nextSize]
+  | clear => simp [histStep, Hist.uniform, HOp.nextSize]
+  | get => simp [histStep, histGet_ok h hu, hu, HOp.nextSize]
+  | moveKeepNew => simp [histStep, hu, HOp.nextSize]
   | moveKeepOld => simp [HOp.ok] at hop
+  | moveAssignFrom S2 k w =>
+    have := otherHist_ok S2 k w
+    simp [histStep, this.1, this.2.1, this.2.2.1, HOp.nextSize]
+  | moveAssignInto S2 k w =>
+    have := otherHist_ok S2 k w
+    simp [histStep, this.1, hu, HOp.nextSize]
 
 theorem histRun_safe (ops : List HOp) : ∀ h : Hist, h.uniform → histValid h.stateSize ops → (histRun h ops).Safe := by
   induction ops with
   | nil => intro h _ _; simp [histRun]
   | cons op ops ih =>
     intro h hu hv
-    have hs := histStep_ok h op hu (hv op (List.mem_cons_self))
+    obtain ⟨hv1, hv2⟩ := hv
+    have hs := histStep_ok h op hu hv1
     simp only [histRun, safe_bind, safe_pure, and_true]
     refine ⟨hs.1, ih _ hs.2.1 ?_⟩
     rw [hs.2.2]
-    intro o ho
-    exact hv o (List.mem_cons_of_mem _ ho)
+    exact hv2
 
 theorem histStep_bounded (h : Hist) (op : HOp) (hb : h.bounded) (hop : op ≠ .moveKeepOld) : (histStep h op).val.1.bounded := by
   cases op with
@@ -301,6 +342,8 @@ theorem histStep_bounded (h : Hist) (op : HOp) (hb : h.bounded) (hop : op ≠ .m
   | get => simp [histStep, hb]
   | moveKeepNew => simp [histStep, hb]
   | moveKeepOld => exact absurd rfl hop
+  | moveAssignFrom S2 k w => simp [histStep, (otherHist_ok S2 k w).2.2.2]
+  | moveAssignInto S2 k w => simp [histStep, hb]
 
 theorem histFinal_bounded (ops : List HOp) : ∀ h : Hist, h.bounded → (∀ op ∈ ops, op ≠ .moveKeepOld) → (histFinal h ops).bounded := by
   induction ops with
